@@ -64,8 +64,9 @@ func mustJSON(v interface{}) json.RawMessage {
 const rule = "validator case: non-empty input string (distinct by string); trie history: at least one Add and " +
 	"(a Match with a non-empty result or a Remove returning true), distinct by the operation list; " +
 	"service history: at least one accepted Subscribe and one Publish delivered to at least one stream, distinct by event list; " +
-	"receive history: at least one delivered and one dropped message, distinct by message list; " +
-	"sign-data case: two Publish values differing in at least one signed field"
+	"client receive history: at least one message delivered to a handler and one not delivered, distinct by history; " +
+	"sign-data case: at least one non-empty signed field, distinct by field values; " +
+	"dedup case: at least one id reported as seen and more recorded ids than ring slots, distinct by id list"
 
 func main() {
 	vlib.Quiet()
@@ -83,10 +84,16 @@ func main() {
 	} else {
 		rnd := vlib.NewRand(o.Seed)
 		thorough := o.Tier == "thorough"
-		g.genValidators(rnd.Fork(1), thorough, o.Budget)
-		g.genTrie(rnd.Fork(2), thorough, o.Budget)
-		g.genService(rnd.Fork(3), thorough, o.Budget)
-		g.genReceive(rnd.Fork(4), thorough, o.Budget)
+		// C17_ONLY=client restricts a development run to the client-side generators (never set by bin/check)
+		if os.Getenv("C17_ONLY") != "client" {
+			g.genValidators(rnd.Fork(1), thorough, o.Budget)
+			g.genTrie(rnd.Fork(2), thorough, o.Budget)
+			g.genService(rnd.Fork(3), thorough, o.Budget)
+			g.genReceive(rnd.Fork(4), thorough, o.Budget)
+		}
+		g.genClient(rnd.Fork(5), thorough, o.Budget)
+		g.genSign(rnd.Fork(6), thorough, o.Budget)
+		g.genDedup(rnd.Fork(7), thorough, o.Budget)
 	}
 	g.w.Finish(rule, g.samples, nil)
 }
@@ -104,6 +111,8 @@ func (g *gen) replay(d desc) {
 		_ = json.Unmarshal(d.Data, &ops)
 		g.trieCase(ops)
 	default:
-		g.replayMore(d)
+		if !g.replayClient(d) {
+			g.replayMore(d)
+		}
 	}
 }
